@@ -492,7 +492,8 @@ fn named_part(ctx: &Ctx, job: usize, iters: u64) -> Stats {
     let mut rng = Rng::stream(ctx.seed, "C03.named", job as u64);
     // ids that coincide when narrowed to 8 / 16 / 32 bits (0 ~ 256 ~ 2^32, 2 ~ 65538 ~ 2^32 + 2)
     let ids: Vec<usize> = vec![0, 2, 256, 65_538, 1 << 32, (1 << 32) + 2, usize::MAX];
-    let syms: Vec<NamedSymbol> = ids.iter().enumerate().map(|(i, id)| NamedSymbol { name: Rc::new(format!("n{}", i)), id: *id }).collect();
+    // (the NAMES repeat — n0, n1, n2, n0, .. — a symbol is its id, whatever it prints as)
+    let syms: Vec<NamedSymbol> = ids.iter().enumerate().map(|(i, id)| NamedSymbol { name: Rc::new(format!("n{}", i % 3)), id: *id }).collect();
     let n = syms.len() as u32;
     let idx = |s: &NamedSymbol| syms.iter().position(|x| x.id == s.id).map(|p| p as u32);
     let env: BDDEnv<NamedSymbol> = BDDEnv::new();
@@ -514,6 +515,24 @@ fn named_part(ctx: &Ctx, job: usize, iters: u64) -> Stats {
             let snap = deep_copy(&d);
             (d, snap, t)
         };
+        // the atoms themselves, through var(): two symbols that print alike are two variables
+        {
+            let (i, j) = (rng.usize(syms.len()), rng.usize(syms.len()));
+            let op = *rng.pick(&BIN_OPS);
+            let case = json!({"kind": "named-atoms", "op": op, "i": i, "j": j, "seed": ctx.seed, "job": job, "iters": iters});
+            st.evals += 1;
+            match guarded(|| apply_engine(&env, op, &env.var(syms[i].clone()), &env.var(syms[j].clone()))) {
+                Ok(r) => {
+                    let want = apply_ref(op, &Tt::var(n, i as u32), &Tt::var(n, j as u32));
+                    if tt_of_bdd(&r, n, &idx).ok().as_ref() != Some(&want) {
+                        st.violate("c03.pointwise", format!("C03:{}:wrong-value", op), format!("NamedSymbol env: {}(var({}#{}), var({}#{})) = {} — expected table {}", op, syms[i].name, syms[i].id, syms[j].name, syms[j].id, short(&r), want.hex()), case);
+                    } else if i != j {
+                        st.bump("named_atoms_with_one_printed_name");
+                    }
+                }
+                Err(c) => st.violate("c03.panic", format!("C03:{}:{}", op, c.signature()), format!("{:?}", c), case),
+            }
+        }
         let a = mk(&mut rng);
         let b = mk(&mut rng);
         let op = *rng.pick(&BIN_OPS);
